@@ -226,7 +226,7 @@ var c12OtherTypes = []int32{0, 8, 10, 14, 15, 16, 17, 18, 19, 20, 21, 22, 23, 99
 func c12Gen(rt *rapid.T) c12Case {
 	var c c12Case
 	dt := rapid.SampledFrom(c12Dtypes).Draw(rt, "dtype")
-	c.shape = genShape(0, 4, 4, 64).Draw(rt, "shape")
+	c.shape = genShape(0, 4, 4, 1500).Draw(rt, "shape")
 	n := prod(c.shape)
 	c.backing = genBits(dt, n).Draw(rt, "values")
 	c.typed = rapid.Bool().Draw(rt, "typed")
